@@ -40,6 +40,15 @@ CHECKS["C16"] = dict(engine="http-auth",
   note="Trusted: the class table mapping routes to spec shapes (harness/cmd/vauth/table.go, exit 2 on an unmapped route), TLC. Routes whose index a middleware cannot determine have outcome 'any'. Handler chain called in process; crash restarts not modelled. Built by a sub-agent.",
   ref="6 C16")
 
+CHECKS["C13"] = dict(engine="kektor-conc",
+  technique="TLC on Conc.tla (read-modify-write cycles of VReinforce/VSetMetadata under the per-node lock; diagnostic run without the lock must show the lost update) + traces of the real engine under concurrent load (race-detector build, seeded yields at hook points, varying GOMAXPROCS, snapshot/compaction/vacuum/refine/index create+delete/stalled subscriber/Close in the middle) validated by TLC against Trace_Conc.tla",
+  text="The specification decides per-item atomicity (every acknowledged reinforcement counted exactly once in lock order, every merged key kept, KV reads return written values, mutating calls after Close fail, every call returns); each recorded trace of the real engine is explained by TLC event by event. Data-race reports of the race detector, panics and calls that never return on those executions are violations observed on real code.",
+  note="Schedules are those the Go scheduler produces (not exhaustive). Data races are decided by the race detector, not by the spec. Gardener goroutines are not started.", ref="6 C13")
+CHECKS["C18"] = dict(engine="arena-kernels",
+  technique="TLC on Arena.tla (injective slot table, free/used disjoint, Read(id)=val[id] after every action incl. every compaction step, cycle termination) + forward replay of TLC behaviours on a real mmap.VectorArena (22 MB slots, 3 per 64 MB chunk, real AsyncCompactor.RunCycle); concurrent GetBytes readers during real cycles; TLC on Kernels.tla, one real kernel/quantiser/hnsw call per TLC state compared with exact integers",
+  text="Arena.tla is checked exhaustively for histories up to 6-8 operations over 4-5 ids, 2/3/4 slots per chunk; every TLC-emitted behaviour is executed on the real arena with slot table, free-list order, chunk files, bytes of every physical slot and GetBytes of every id compared after every step. Kernels.tla enumerates the integer/dyadic lattice; every state is executed on the real kernels, quantiser and hnsw read-back.",
+  note="Not decided: tolerance bounds over general float magnitudes and 'perturbs rankings only among near-ties' for general data (lattice instances only). Pure-Go build only. Open findings KF-C18-1/2 are API level (the engine never calls FreeSlot). Built by a sub-agent.", ref="6 C18")
+
 NOT_YET = {}
 
 def main():
@@ -68,6 +77,8 @@ def main():
             {"name": "kektor-writer", "path": "spec/Writer.tla + tools/check_C14.py + harness/cmd/vreplay/writer.go", "serves_properties": ["C14"],
              "kind_free_text": "TLA+ spec of the concurrent write path; TLC exhaustive; forced-schedule replay with blocking hooks"},
             {"name": "http-auth", "path": "spec/Auth.tla + tools/check_C16.py + harness/cmd/vauth", "serves_properties": ["C16"], "kind_free_text": "TLA+ policy/reference-monitor product + restart machine, replayed on the real server"},
+            {"name": "kektor-conc", "path": "spec/Conc.tla + spec/Trace_Conc.tla + tools/check_C13.py + harness/cmd/vreplay/conc.go", "serves_properties": ["C13"], "kind_free_text": "trace validation of real concurrent executions (race build)"},
+            {"name": "arena-kernels", "path": "spec/Arena.tla + spec/Kernels.tla + tools/check_C18.py + harness/cmd/c18", "serves_properties": ["C18"], "kind_free_text": "TLA+ transcription of arena/compactor and kernels; behaviours replayed on the real code"},
             {"name": "decay", "path": "spec/Decay.tla + tools/check_C15.py + harness/cmd/c15decay", "serves_properties": ["C15"], "kind_free_text": "TLA+ case analysis, one implementation test per TLC state"},
             {"name": "http-conformance", "path": "spec/Http.tla + tools/check_C19.py + harness/cmd/vhttp", "serves_properties": ["C19"], "kind_free_text": "TLA+ request/FS model, cases replayed on the real server"},
             {"name": "kektor-engine", "path": "spec/Kektor.tla + tools/engine_checks.py + harness/internal/eng", "serves_properties": ["C01", "C04", "C05", "C10", "C12"],
